@@ -54,6 +54,10 @@ fn scratch_dir() -> &'static std::path::PathBuf {
         std::fs::write(dir.join("scratch_nested"), "q := import \"scratch_missing\"").unwrap();
         std::fs::write(dir.join("scratch_nested_ok"), "q := import \"scratch_ok\"; r := q.p").unwrap();
         std::fs::write(dir.join("scratch_empty"), "").unwrap();
+        // files that use names of whoever imports them (a file is checked in the importer's scope)
+        std::fs::write(dir.join("scratch_uses_cell"), "bump := () -> int { counter += 1; return *counter; }; seen := *counter;").unwrap();
+        std::fs::write(dir.join("scratch_uses_const"), "twice := k * 2; g := (x: int) -> int { return x + k; };").unwrap();
+        std::fs::write(dir.join("scratch_uses_nested"), "inner := import \"scratch_uses_cell\"; s := inner.seen;").unwrap();
         std::fs::write(dir.join("scratch_ret"), "return 1").unwrap();
         std::fs::write(dir.join("scratch_break"), "break").unwrap();
         // imports resolve against the working directory: run inside the scratch directory
@@ -276,6 +280,28 @@ fn import_programs() -> Vec<String> {
             out.push(ctx.replace("{}", file).replace("{{", "{").replace("}}", "}"));
         }
     }
+    // the same file under importers that declare the names it uses as cells, as constants, at other
+    // types, as parameters, or not at all - each pair of importers in both orders (the list is walked
+    // forwards and backwards by many threads of one process)
+    let mut scoped = vec![];
+    for file in ["scratch_uses_cell", "scratch_uses_const", "scratch_uses_nested"] {
+        for importer in [
+            "lib := import \"{}\"; lib",
+            "counter := mut 0; k := 2; lib := import \"{}\"; lib",
+            "counter := mut \"s\"; k := \"s\"; lib := import \"{}\"; lib",
+            "counter := 5; k := mut 5; lib := import \"{}\"; lib",
+            "counter := mut 1.5; k := 2.5; lib := import \"{}\"; lib",
+            "f := (counter: mut int, k: int) -> any { lib := import \"{}\"; return lib; }; f(mut 1, 2)",
+            "f := (counter: mut int|mut float, k: int|float) -> any { lib := import \"{}\"; return lib; }; f(mut 1, 2)",
+            "counter := mut 0; k := 2; a := import \"{}\"; { counter := \"s\"; k := true; b := import \"{}\"; b }",
+            "m := mod { counter := mut 0; k := 2; lib := import \"{}\"; }; lib2 := import \"{}\"; m",
+        ] {
+            scoped.push(importer.replace("{}", file));
+        }
+    }
+    out.extend(scoped.iter().cloned());
+    out.extend(scoped.iter().rev().cloned());
+    out.extend(scoped.iter().cloned());
     out
 }
 
@@ -823,7 +849,7 @@ pub fn run(session: &Session) -> i32 {
         session.run_tapes(&C03, session.tier.of(60_000, 3_000_000), 400, 0);
     }
     let code = session.finish(
-        "(constant-folding: every pair of the i64 and f64 boundary grids under every foldable operator, and boundary ints in index, slice, length and propagated-binding positions) inputs fed to Code::parse (against an interpreter with stdlib and bound names, and against an empty one), Code::return_type, Error::to_string, Variable::from_str and Type::from_str: every sequence of 1-2 tokens (quick; 1-3 thorough) over a 138-token alphabet (all keywords, every operator, brackets, literal samples incl. a too-big int, bound and unbound identifiers, composite fragments) plus unfinished-construct prefixes x token x closer, random token sequences up to length 16/24, random derivations of the project's own pest grammar read at run time (start rules input/line/stm/expr/function/match/type/only_var/slicing; identifiers mapped onto bound names), token-level mutations (delete/duplicate/swap/replace/insert) of the README, docs and example scripts, the operator x operand-type matrix (every unary/postfix/statement template, every infix and assignment operator and 28 two-operand templates applied to parameters of 60 types incl. `!`, `any` and unions of arrays, tuples, structs, muts, functions and iterators), the same matrix over operands that are constants of a union static type and over operands whose type shrinks to `!` when a constant condition is folded away (`[v1, v2][k]`: every unary template x every catalogue value, every infix operator x all pairs of values of 30 scalar / union / any operand types), tape-generated typed programs of six profiles as they are and with token-level edits, a catalogue of names rebound from their own old (non-constant) value to a value of another type in every kind of body, 18 binding constructs x uses of the bound name after the construct, 33 spellings of integer literals in 30 positions, 10 always-failing constant operations in 28 syntactic positions, and imports of 13 file states (missing, directory, syntax error, type error, folding error, non-UTF-8, nested, empty, top-level return/break) in 11 positions, and (in a child process, whose death is the verdict) files that import themselves directly or through one or two others under several spellings of the path, next to diamonds and repeated imports. Oracle: no panic. Non-trivial = the text passes the grammar (reaches instruction construction); distinct by text.",
+        "(constant-folding: every pair of the i64 and f64 boundary grids under every foldable operator, and boundary ints in index, slice, length and propagated-binding positions) inputs fed to Code::parse (against an interpreter with stdlib and bound names, and against an empty one), Code::return_type, Error::to_string, Variable::from_str and Type::from_str: every sequence of 1-2 tokens (quick; 1-3 thorough) over a 138-token alphabet (all keywords, every operator, brackets, literal samples incl. a too-big int, bound and unbound identifiers, composite fragments) plus unfinished-construct prefixes x token x closer, random token sequences up to length 16/24, random derivations of the project's own pest grammar read at run time (start rules input/line/stm/expr/function/match/type/only_var/slicing; identifiers mapped onto bound names), token-level mutations (delete/duplicate/swap/replace/insert) of the README, docs and example scripts, the operator x operand-type matrix (every unary/postfix/statement template, every infix and assignment operator and 28 two-operand templates applied to parameters of 60 types incl. `!`, `any` and unions of arrays, tuples, structs, muts, functions and iterators), the same matrix over operands that are constants of a union static type and over operands whose type shrinks to `!` when a constant condition is folded away (`[v1, v2][k]`: every unary template x every catalogue value, every infix operator x all pairs of values of 30 scalar / union / any operand types), tape-generated typed programs of six profiles as they are and with token-level edits, a catalogue of names rebound from their own old (non-constant) value to a value of another type in every kind of body, 18 binding constructs x uses of the bound name after the construct, 33 spellings of integer literals in 30 positions, 10 always-failing constant operations in 28 syntactic positions, and imports of 13 file states (missing, directory, syntax error, type error, folding error, non-UTF-8, nested, empty, top-level return/break) in 11 positions, files that use names of their importer under importers that declare those names as cells, constants, parameters, at other types or not at all (both orders within one process), and (in a child process, whose death is the verdict) files that import themselves directly or through one or two others under several spellings of the path, next to diamonds and repeated imports. Oracle: no panic. Non-trivial = the text passes the grammar (reaches instruction construction); distinct by text.",
         false,
         &["inputs nested deeper than 40 brackets and imports outside the scratch directory are discarded and counted",
           "the working directory of the check process is a scratch directory"],
